@@ -21,6 +21,24 @@
 //!   sp <route> <level>           nodegraph_to_buffer(level) -> load through <route> -> digest of what was loaded + same=<loaded == graph>
 //!                                routes: ffi = nodegraph_from_buffer, rd = Nodegraph::from_reader(&[u8]),
 //!                                path = bytes on disk + Nodegraph::from_path, ffipath = bytes on disk + nodegraph_from_path
+//!
+//! large dense tables (256 KiB .. 4 MiB per table, 1..3 tables, about every second / fourth / three of four bits
+//! set at random: incompressible, so a gzip encoder takes such a table in many partial writes).  The content is a
+//! seeded pattern both sides regenerate: 64-bit word w of table t = mix(base(seed, t) + (w + 1) * GAMMA)
+//! (splitmix64 finaliser; d = 25: AND with a second draw, d = 75: OR), bits >= size cleared; bit b of the table is
+//! bit b % 64 of word b / 64.  Answers are digests; the Lean driver computes the reference from the case line.
+//!   case <n> dense <k> <occ> <seed> <d> <sizes>   the khmer file of that pattern, loaded with Nodegraph::from_reader
+//!   dd                           k=.. occ=.. n=.. t=<size>:<popcount>:<xor of word*(2w+1)>:<sum of mix(word ^ w*GAMMA)>;..
+//!                                len=<length of save_to_writer's bytes> fh=<FNV-1a 64 of those bytes>
+//!   dn <writer> <loader>         save through <writer>, load through <loader> -> digest of what was loaded
+//!                                + same=<loaded == graph> wl=<bytes written | gz>
+//!                                writers: buf<level> = nodegraph_to_buffer(level); nif<1|6|9> = save_to_writer into a
+//!                                niffler gzip writer over a Vec; w<max> = save_to_writer into a writer that accepts
+//!                                at most <max> bytes per write() call; gzw<max> = niffler gzip (level 6) over such a
+//!                                writer; file = Nodegraph::save(path); fbuf = BufWriter over a File
+//!                                loaders: ffi, rd, path, ffipath (as for `sp`), r<max> = from_reader over a reader that
+//!                                hands out at most <max> bytes per read() call, br = BufReader of capacity 16
+//!   count <h>                    as everywhere (the driver keeps the changed words)
 use sourmash::ffi::nodegraph::{
     nodegraph_buffer_free, nodegraph_free, nodegraph_from_buffer, nodegraph_from_path,
     nodegraph_to_buffer, SourmashNodegraph,
@@ -28,9 +46,11 @@ use sourmash::ffi::nodegraph::{
 use sourmash::ffi::utils::{sourmash_err_clear, sourmash_err_get_last_code, ForeignObject};
 use sourmash::sketch::nodegraph::Nodegraph;
 use std::ffi::CString;
+use std::io::{Read, Write};
 use std::os::raw::c_char;
 use verif_harness::*;
 
+const DENSE_QUICK: u64 = 8;
 const TESTDATA: &str = "/repo/tests/test-data";
 
 fn header(k: u32, n: u8, occ: u64) -> Vec<u8> {
@@ -248,6 +268,86 @@ fn sparse_cases(o: &mut Out, r: &mut Rng, ncases: u64) {
     }
 }
 
+/// a table size of `lo`..`hi` KiB of data: arbitrary, a multiple of 64 / 32 / 8, 24..31 mod 32, next to a power of two
+fn dense_size(r: &mut Rng, lo: u64, hi: u64) -> u64 {
+    let base = r.range(lo * 8192, hi * 8192);
+    match r.below(7) {
+        0 => base / 64 * 64,
+        1 => base / 32 * 32,
+        2 => base / 32 * 32 + r.range(24, 31),
+        3 => base / 8 * 8,
+        4 => {
+            // 2^21 .. 2^25 bits, clamped into the range, one below / at / one above
+            let mut p = 1u64 << 21;
+            while p * 2 <= hi * 8192 && (p < lo * 8192 || r.chance(1, 2)) {
+                p *= 2;
+            }
+            p + r.below(3) - 1
+        }
+        _ => base | 1,
+    }
+}
+
+fn dense_cases(o: &mut Out, r: &mut Rng, ncases: u64, small: bool) {
+    const LOADERS: [&str; 7] = ["ffi", "rd", "path", "ffipath", "r7", "r4096", "br"];
+    const LEVELS: [u64; 4] = [1, 6, 9, 0];
+    let rot = r.below(28);
+    for c in 0..ncases {
+        let i = c + rot;
+        // shape: one table of 2..4 MiB, two of 1..2 MiB, three of 256 KiB..1 MiB, one of 256..512 KiB
+        let sizes: Vec<u64> = if small {
+            match i % 3 {
+                0 => vec![dense_size(r, 256, 512)],
+                1 => (0..2).map(|_| dense_size(r, 256, 384)).collect(),
+                _ => (0..3).map(|_| dense_size(r, 256, 300)).collect(),
+            }
+        } else {
+            match i % 4 {
+                0 => vec![dense_size(r, 2048, 4096)],
+                1 => (0..2).map(|_| dense_size(r, 1024, 2048)).collect(),
+                2 => (0..3).map(|_| dense_size(r, 256, 1024)).collect(),
+                _ => vec![dense_size(r, 256, 512)],
+            }
+        };
+        let d = [50, 50, 25, 50, 75][(i % 5) as usize];
+        o.case(&format!(
+            "dense {} {} {} {} {}",
+            some_k(r),
+            r.bits(40),
+            r.next(),
+            d,
+            show_nats(sizes.iter().copied())
+        ));
+        o.op("dd");
+        // the C writer plain and at levels 1, 6, 9, each through another loader
+        for j in 0..4u64 {
+            o.op(&format!("dn buf{} {}", LEVELS[((i + j) % 4) as usize], LOADERS[((i + 2 * j) % 7) as usize]));
+        }
+        o.op(&format!("dn buf{} ffi", r.range(2, 8)));
+        o.op(&format!("dn nif{} {}", [1, 6, 9][(i % 3) as usize], LOADERS[((i + 3) % 7) as usize]));
+        o.op(&format!("dn nif{} rd", [6, 9, 1][(i % 3) as usize]));
+        // writers that take a few bytes per call, plain and under the gzip encoder
+        o.op(&format!("dn w{} {}", r.range(1, 5), LOADERS[((i + 4) % 7) as usize]));
+        o.op(&format!("dn w{} {}", r.range(1000, 4096), LOADERS[((i + 5) % 7) as usize]));
+        o.op(&format!("dn gzw{} {}", r.range(1, 5), LOADERS[((i + 6) % 7) as usize]));
+        o.op(&format!("dn gzw{} rd", r.range(1000, 4096)));
+        o.op(&format!("dn {} {}", if i % 2 == 0 { "file" } else { "fbuf" }, if i % 4 < 2 { "path" } else { "ffipath" }));
+        // kept in use: further hashes (new bits and bits already there), save again
+        for _ in 0..r.range(1, 4) {
+            let h = match r.below(4) {
+                0 => sizes[0] - 1,
+                1 => r.below(64),
+                2 => sizes[0] * r.range(1, 1000) + sizes[0] / 64 * 64,
+                _ => r.bits(64),
+            };
+            o.op(&format!("count {}", h));
+        }
+        o.op("dd");
+        o.op(&format!("dn buf{} {}", r.range(1, 9), LOADERS[(i % 7) as usize]));
+        o.op(&format!("dn gzw{} ffi", r.range(1, 4096)));
+    }
+}
+
 fn oxli_files(dir: &str) -> Vec<String> {
     let mut v = vec![];
     if let Ok(rd) = std::fs::read_dir(format!("{}/{}", TESTDATA, dir)) {
@@ -334,6 +434,10 @@ fn gen(a: &Args) {
     // 1c. huge sparse tables: 2..8 MB of table data with 0, 1 or a handful of bits, every compression
     // level of nodegraph_to_buffer (1, 2, 6, 9 and plain), every loader
     sparse_cases(&mut o, &mut r, if thorough { 30 } else { 6 });
+    // 1d. large dense tables: 256 KiB..4 MiB of incompressible table data, 1..3 tables, every writer
+    // (nodegraph_to_buffer plain and gzip, niffler gzip writers, short-write wrappers, files), every loader
+    dense_cases(&mut o, &mut r, if thorough { 40 } else { DENSE_QUICK }, false);
+    dense_cases(&mut o, &mut r, if thorough { 24 } else { 3 }, true);
     // 2. multi-table graphs, table counts up to 255
     let mut counts: Vec<usize> = vec![1, 2, 3, 4, 5, 6, 7, 8, 16, 31, 32, 33, 64, 127, 128, 200, 254, 255, 255];
     let extra = if thorough { 3000 } else { 300 };
@@ -445,6 +549,231 @@ fn sparse_digest(ng: &Nodegraph) -> String {
     format!("k={} occ={} n={} t={} len={} nz={}", ng.ksize(), ng.noccupied(), ng.ntables(), t.join(";"), bytes.len(), nz)
 }
 
+/* ---- large dense tables: the seeded pattern and the digests ---- */
+
+const GAMMA: u64 = 0x9E37_79B9_7F4A_7C15;
+
+fn mix(z: u64) -> u64 {
+    let z = (z ^ (z >> 30)).wrapping_mul(0xBF58_476D_1CE4_E5B9);
+    let z = (z ^ (z >> 27)).wrapping_mul(0x94D0_49BB_1331_11EB);
+    z ^ (z >> 31)
+}
+
+/// the 64-bit words of table `t` (bit b of the table = bit b % 64 of word b / 64), bits >= size cleared
+fn dense_words(seed: u64, t: u64, d: u64, size: u64) -> Vec<u64> {
+    let base = mix(seed.wrapping_add((t + 1).wrapping_mul(GAMMA)));
+    let nwords = (size + 63) / 64;
+    let mut v: Vec<u64> = (0..nwords)
+        .map(|w| {
+            let a = mix(base.wrapping_add((w + 1).wrapping_mul(GAMMA)));
+            match d {
+                25 => a & mix(a),
+                75 => a | mix(a),
+                _ => a,
+            }
+        })
+        .collect();
+    if size % 64 != 0 {
+        if let Some(last) = v.last_mut() {
+            *last &= (1u64 << (size % 64)) - 1;
+        }
+    }
+    v
+}
+
+/// the khmer file of the pattern
+fn dense_file(k: u32, occ: u64, seed: u64, d: u64, sizes: &[u64]) -> Vec<u8> {
+    let mut f = header(k, sizes.len() as u8, occ);
+    for (t, size) in sizes.iter().enumerate() {
+        f.extend_from_slice(&size.to_le_bytes());
+        let nbytes = (size / 8 + 1) as usize;
+        let mut data: Vec<u8> = Vec::with_capacity(nbytes + 8);
+        for w in dense_words(seed, t as u64, d, *size) {
+            data.extend_from_slice(&w.to_le_bytes());
+        }
+        data.resize(nbytes, 0);
+        f.extend(data);
+    }
+    f
+}
+
+fn fnv1a(bytes: &[u8]) -> u64 {
+    let mut h: u64 = 0xcbf2_9ce4_8422_2325;
+    for b in bytes {
+        h = (h ^ *b as u64).wrapping_mul(0x0000_0100_0000_01b3);
+    }
+    h
+}
+
+/// digest of a graph with large dense tables, from its bit sets and from the bytes it saves
+fn dense_digest(ng: &Nodegraph) -> String {
+    let sizes = ng.tablesizes();
+    let bs = ng.clone().into_bitsets();
+    let t: Vec<String> = bs
+        .iter()
+        .zip(sizes.iter())
+        .map(|(b, s)| {
+            let blocks = b.as_slice();
+            let nwords = ((*s + 63) / 64) as usize;
+            let (mut x, mut sm) = (0u64, 0u64);
+            for w in 0..nwords {
+                let lo = blocks.get(2 * w).copied().unwrap_or(0) as u64;
+                let hi = blocks.get(2 * w + 1).copied().unwrap_or(0) as u64;
+                let word = lo | hi << 32;
+                x ^= word.wrapping_mul(2 * w as u64 + 1);
+                sm = sm.wrapping_add(mix(word ^ (w as u64).wrapping_mul(GAMMA)));
+            }
+            format!("{}:{}:{:016x}:{:016x}", s, b.count_ones(..), x, sm)
+        })
+        .collect();
+    let bytes = save_bytes(ng);
+    format!(
+        "k={} occ={} n={} t={} len={} fh={:016x}",
+        ng.ksize(),
+        ng.noccupied(),
+        ng.ntables(),
+        t.join(";"),
+        bytes.len(),
+        fnv1a(&bytes)
+    )
+}
+
+/// hands out at most `max` bytes per read() call (sizes cycle through 1..=max)
+struct ShortReader<'a> {
+    data: &'a [u8],
+    pos: usize,
+    max: usize,
+    tick: usize,
+}
+impl Read for ShortReader<'_> {
+    fn read(&mut self, buf: &mut [u8]) -> std::io::Result<usize> {
+        self.tick += 1;
+        let want = 1 + (self.tick * 5) % self.max;
+        let n = want.min(buf.len()).min(self.data.len() - self.pos);
+        buf[..n].copy_from_slice(&self.data[self.pos..self.pos + n]);
+        self.pos += n;
+        Ok(n)
+    }
+}
+
+/// accepts at most `max` bytes per write() call (sizes cycle through 1..=max)
+struct ShortWriter {
+    data: Vec<u8>,
+    max: usize,
+    tick: usize,
+}
+impl Write for ShortWriter {
+    fn write(&mut self, buf: &[u8]) -> std::io::Result<usize> {
+        self.tick += 1;
+        let want = 1 + (self.tick * 3) % self.max;
+        let n = want.min(buf.len());
+        self.data.extend_from_slice(&buf[..n]);
+        Ok(n)
+    }
+    fn flush(&mut self) -> std::io::Result<()> {
+        Ok(())
+    }
+}
+
+fn gz_level(n: u64) -> niffler::compression::Level {
+    use niffler::compression::Level::*;
+    match n {
+        1 => One,
+        2 => Two,
+        3 => Three,
+        4 => Four,
+        5 => Five,
+        6 => Six,
+        7 => Seven,
+        8 => Eight,
+        _ => Nine,
+    }
+}
+
+/// save `ng` through the named writer: the bytes that arrived, and whether they must be gzip
+fn dense_write(ng: &Nodegraph, wr: &str, dir: &std::path::Path) -> Result<(Vec<u8>, bool), String> {
+    let sv = |r: Result<(), sourmash::Error>| r.map_err(|_| "savefail".to_string());
+    if let Some(l) = wr.strip_prefix("buf") {
+        let level: u8 = l.parse().unwrap();
+        return unsafe { to_buffer(ng, level) }.map(|b| (b, level > 0));
+    }
+    if let Some(l) = wr.strip_prefix("nif") {
+        let mut buf: Vec<u8> = vec![];
+        {
+            let mut w = niffler::get_writer(Box::new(&mut buf), niffler::compression::Format::Gzip, gz_level(l.parse().unwrap()))
+                .map_err(|_| "nowriter".to_string())?;
+            sv(ng.save_to_writer(&mut w))?;
+        }
+        return Ok((buf, true));
+    }
+    if let Some(m) = wr.strip_prefix("gzw") {
+        let mut sw = ShortWriter { data: vec![], max: m.parse().unwrap(), tick: 0 };
+        {
+            let mut w = niffler::get_writer(Box::new(&mut sw), niffler::compression::Format::Gzip, gz_level(6))
+                .map_err(|_| "nowriter".to_string())?;
+            sv(ng.save_to_writer(&mut w))?;
+        }
+        return Ok((sw.data, true));
+    }
+    if let Some(m) = wr.strip_prefix('w') {
+        let mut sw = ShortWriter { data: vec![], max: m.parse().unwrap(), tick: 0 };
+        sv(ng.save_to_writer(&mut sw))?;
+        return Ok((sw.data, false));
+    }
+    let p = dir.join("w.ng");
+    match wr {
+        "file" => sv(ng.save(&p))?,
+        "fbuf" => {
+            let mut w = std::io::BufWriter::with_capacity(8192, std::fs::File::create(&p).unwrap());
+            sv(ng.save_to_writer(&mut w))?;
+            w.flush().map_err(|_| "flushfail".to_string())?;
+        }
+        _ => return Err("bad-op".into()),
+    }
+    Ok((std::fs::read(&p).unwrap(), false))
+}
+
+/// load `b` through the named loader and answer with `answer(loaded graph)`
+fn dense_load(b: &[u8], gz: bool, loader: &str, dir: &std::path::Path, answer: &dyn Fn(&Nodegraph) -> String) -> String {
+    let p = dir.join(if gz { "g.ng.gz" } else { "g.ng" });
+    match loader {
+        "ffi" | "ffipath" => unsafe {
+            sourmash_err_clear();
+            let q = if loader == "ffi" {
+                nodegraph_from_buffer(b.as_ptr() as *const c_char, b.len())
+            } else {
+                std::fs::write(&p, b).unwrap();
+                let c = CString::new(p.to_str().unwrap()).unwrap();
+                nodegraph_from_path(c.as_ptr())
+            };
+            if q.is_null() {
+                return format!("err code{}", sourmash_err_get_last_code() as u32);
+            }
+            let out = answer(SourmashNodegraph::as_rust(q));
+            nodegraph_free(q);
+            out
+        },
+        _ => {
+            let r = if loader == "rd" {
+                Nodegraph::from_reader(b)
+            } else if loader == "path" {
+                std::fs::write(&p, b).unwrap();
+                Nodegraph::from_path(&p)
+            } else if loader == "br" {
+                Nodegraph::from_reader(std::io::BufReader::with_capacity(16, b))
+            } else if let Some(m) = loader.strip_prefix('r') {
+                Nodegraph::from_reader(ShortReader { data: b, pos: 0, max: m.parse().unwrap(), tick: 0 })
+            } else {
+                return "bad-op".into();
+            };
+            match r {
+                Ok(g2) => answer(&g2),
+                Err(_) => "fail".into(),
+            }
+        }
+    }
+}
+
 unsafe fn to_buffer(ng: &Nodegraph, level: u8) -> Result<Vec<u8>, String> {
     sourmash_err_clear();
     let mut size: usize = 0;
@@ -460,9 +789,22 @@ unsafe fn to_buffer(ng: &Nodegraph, level: u8) -> Result<Vec<u8>, String> {
 fn step(st: &mut Option<Nodegraph>, ws: &[&str]) -> String {
     match ws[0] {
         "case" => {
+            *st = None;
             if ws.len() >= 5 && (ws[2] == "new" || ws[2] == "sparse") {
                 let sizes: Vec<usize> = parse_nats(ws[4]).into_iter().map(|x| x as usize).collect();
                 *st = Some(Nodegraph::new(&sizes, ws[3].parse().unwrap()));
+            } else if ws.len() >= 8 && ws[2] == "dense" {
+                let f = dense_file(
+                    ws[3].parse().unwrap(),
+                    ws[4].parse().unwrap(),
+                    ws[5].parse().unwrap(),
+                    ws[6].parse().unwrap(),
+                    &parse_nats(ws[7]),
+                );
+                match Nodegraph::from_reader(&f[..]) {
+                    Ok(g) => *st = Some(g),
+                    Err(_) => return "fail".into(),
+                }
             }
             "ok".into()
         }
@@ -535,6 +877,22 @@ fn step(st: &mut Option<Nodegraph>, ws: &[&str]) -> String {
                     }
                 },
                 "spd" => sparse_digest(ng),
+                "dd" => dense_digest(ng),
+                "dn" => {
+                    let dir = tempfile::tempdir().unwrap();
+                    let (b, gz) = match dense_write(ng, ws[1], dir.path()) {
+                        Ok(x) => x,
+                        Err(e) => return e,
+                    };
+                    if b.starts_with(&[0x1f, 0x8b]) != gz {
+                        return "badmagic".into();
+                    }
+                    let wl = if gz { "gz".to_string() } else { b.len().to_string() };
+                    let answer = |g2: &Nodegraph| {
+                        format!("{} same={} wl={}", dense_digest(g2), g2 == ng && g2.tablesizes() == ng.tablesizes(), wl)
+                    };
+                    dense_load(&b, gz, ws[2], dir.path(), &answer)
+                }
                 "sp" => unsafe {
                     let level: u8 = ws[2].parse().unwrap();
                     let b = match to_buffer(ng, level) {
